@@ -34,7 +34,7 @@ LEVEL_NOTE = ("Trusted: simulator, record-aware MITM, send/recv taps on the "
               "covered by the SSLv3 MAC by protocol design and are excluded "
               "from bit flips.  TLS 1.3 inner-plaintext forgeries need the "
               "traffic keys and are produced by a byzantine sender.")
-BUDGET = {"quick": 60, "thorough": 1200}
+BUDGET = {"quick": 300, "thorough": 1200}
 CHUNK = 8
 KINDS = ["bitflip", "truncate", "extend", "drop", "dup", "swap", "replay_old",
          "reflect", "inject_plain", "hdr_type", "hdr_version", "hdr_length",
